@@ -363,6 +363,18 @@ def run(rep, facts, tier):
                     'log of %s accompanies a write of %s' % (var, sorted(fields_arm)) if has else
                     '%s logs %s but performs no write to %s itself: the log entry is unbalanced' % (short(fn), var, sorted(fields_arm) or 'machine state'),
                     fn, t.get('at'))
+            # ... on every path: once the entry is on the log, the function does not leave through an error exit before the write
+            # it stands for has happened (a push refused by the stack limit AFTER its PopData was logged leaves an entry that
+            # undoes nothing)
+            if has and aw_:
+                wb = {w['bb'] for w in ws if field_id(w) in fields_arm}
+                if not any(f.dominates(b_, bb) or b_ == bb for b_ in wb):
+                    errs_ = error_blocks(f)
+                    p_ = exists_path_avoiding(f, bb, lambda b_: b_ in errs_, wb) if errs_ else None
+                    rep.add('C02.R3', 'C02.R3:log-then-write-on-every-path:%s:%s' % (fn, var), p_ is None,
+                            'no error exit between the log entry and the write it stands for' if p_ is None else
+                            '%s logs %s and can then fail (bb%s) before it writes %s: the entry stays on the log and undoes a change that '
+                            'never happened' % (short(fn), var, '->bb'.join(map(str, p_[:6])), sorted(fields_arm)), fn, t.get('at'))
         if bool(ws) and fn != 'state::State::fetch_and_run':
             rep.add('C02.R1', 'C02.R1:%s' % fn, True, 'run-time writer of %s; its writes are checked by R2' %
                     sorted({field_id(w) for w in ws}), fn, f.j['span'], nontrivial=False)
@@ -396,6 +408,33 @@ def run(rep, facts, tier):
                     '%s changes machine state outside a logged step (%s): with recording on, rnext after it restores a state that never '
                     'existed (`: f 1 0 / ; 7 f` fails, `5`, one rnext leaves 7 1 0)' % (short(fn), ', '.join(sorted(set(bad)))[:160]), fn, f.j['span'])
     rep.floor('C02 machine-state writes outside run time', n_out, 5)
+    # a length mark of the log is good for cutting back to only if nothing was logged between the state it belongs to and the
+    # moment it was read: in a function that takes such a mark (reads the length without cutting), nothing that can log runs
+    # after the read (build_mark halts the failed program first - a recorded step - and takes the mark then)
+    growers_ = {fn for fn, ws in W.items() if any(w['field'][0] == 'reverse_log' and w['how'].startswith('call:grow') for w in ws)}
+    log_fns_ = {fn for fn in fx.fns if growers_ & (fx.reachable_from([fn]) | {fn})}
+    n_mark = 0
+    for fn in sorted(fx.fns):
+        if fn in reach:
+            continue
+        f = fx.fns[fn]
+        evs = awrite.field_events(fx, f, {'state::State': {'reverse_log'}})
+        if not evs or any(ev['mut'] for ev in evs) or any(w['field'][0] == 'reverse_log' for w in W.get(fn, [])):
+            continue          # no access, or a writer (cut / push / pop): not a mark taker
+        reads = {ev['bb'] for ev in evs}
+        late_ = []
+        for rb in reads:
+            for b2 in blocks_after(f, rb):
+                t2 = f.blocks[b2]['term']
+                if t2['k'] == 'call' and callee_of(t2) in log_fns_:
+                    late_.append(short(callee_of(t2)))
+        n_mark += 1
+        rep.add('C02.R3', 'C02.R3:log-mark-taken-last:%s' % fn, not late_,
+                'the log is looked at after everything in the function that can log' if not late_ else
+                '%s reads the length of the log and calls %s afterwards: what those calls log lies above the mark and is deleted when a '
+                'rejected source is cut back to it (the halt of a failed program disappears from the history)' % (short(fn), sorted(set(late_))),
+                fn, f.j['span'], nontrivial=bool(late_))
+    rep.floor('C02.R3 functions that take a mark of the log', n_mark, 1)
 
     # R3: arms
     for name in sorted(arms):
